@@ -1,10 +1,185 @@
 package main
 
 import (
+	"bytes"
+	"encoding/json"
 	"fmt"
+	"os"
+	"os/exec"
+	"path/filepath"
+	"sort"
+	"strconv"
+	"strings"
+	"time"
 )
 
+// Self-tests of the machinery.
+//
+//   selftest determinism [--props C05,C20] [--seeds 3] [--cases 300] [--procs 10]
+//     For every claimed property: the first `cases` cases of every phase, for `seeds` seeds, are
+//     executed twice in one process and their execution digests compared; then the same digests
+//     are recomputed in `procs` fresh OS processes at GOMAXPROCS 1, 4 and 16 and compared.
+//     The digest of a case covers the generated case, the verdict, and the trace of every Point,
+//     callback event, exit and scheduler grant in global order.
+//   selftest digests <ID> --seed S --cases N       (internal: prints one digest per case)
+//   selftest shrink                                 sanity check of the tape shrinker
+
+func caseDigest(p Property, ph *PhaseCfg, pi int, seed uint64, idx int) string {
+	t := TapeFor(seed, p.ID(), pi, ph, idx)
+	tracing, trace = true, 0
+	st := NewStats(1)
+	v, c, rec := runCase(p, ph, t, st)
+	tracing = false
+	desc, _ := json.Marshal(c.Describe())
+	clause := "-"
+	if v != nil {
+		clause = v.Clause
+	}
+	return fmt.Sprintf("%016x %016x %s %d", fnv64(string(desc)), trace, clause, len(rec))
+}
+
+func digestsFor(p Property, seed uint64, cases int) []string {
+	out := []string{}
+	phases := p.Phases("quick")
+	for pi := range phases {
+		ph := &phases[pi]
+		n := cases
+		if ph.Count < n {
+			n = ph.Count
+		}
+		// spread the sample over the phase
+		step := ph.Count / n
+		if step < 1 {
+			step = 1
+		}
+		for k := 0; k < n; k++ {
+			idx := k * step
+			out = append(out, fmt.Sprintf("%s %d %d %s", p.ID(), pi, idx, caseDigest(p, ph, pi, seed, idx)))
+		}
+	}
+	return out
+}
+
 func selftestMain(what string, f flags, rest []string) int {
-	fmt.Println("selftest", what, "not implemented yet")
+	switch what {
+	case "digests":
+		if len(rest) != 1 || properties[rest[0]] == nil {
+			return 2
+		}
+		installSeams()
+		seed, _ := strconv.ParseUint(f.str("seed", "1"), 10, 64)
+		for _, l := range digestsFor(properties[rest[0]], seed, f.int("cases", 100)) {
+			fmt.Println(l)
+		}
+		return 0
+	case "determinism":
+		return selftestDeterminism(f)
+	case "shrink":
+		return selftestShrink()
+	}
+	usage()
 	return 2
+}
+
+func selftestDeterminism(f flags) int {
+	installSeams()
+	t0 := time.Now()
+	ids := propertyIDs()
+	if s := f.str("props", ""); s != "" {
+		ids = strings.Split(s, ",")
+	}
+	seeds, cases, procs := f.int("seeds", 3), f.int("cases", 300), f.int("procs", 10)
+	self, _ := os.Executable()
+	report := map[string]interface{}{}
+	bad := 0
+	for _, id := range ids {
+		p := properties[id]
+		if p == nil {
+			continue
+		}
+		inproc, cross, total := 0, 0, 0
+		var examples []string
+		for s := 1; s <= seeds; s++ {
+			seed := uint64(s)
+			a := digestsFor(p, seed, cases)
+			b := digestsFor(p, seed, cases)
+			total += len(a)
+			for i := range a {
+				if a[i] != b[i] {
+					inproc++
+					if len(examples) < 5 {
+						examples = append(examples, "same process: "+a[i]+" != "+b[i])
+					}
+				}
+			}
+			ref := strings.Join(a, "\n") + "\n"
+			for k := 0; k < procs; k++ {
+				gmp := []string{"1", "4", "16"}[k%3]
+				cmd := exec.Command(self, "selftest", "digests", id, "--seed", strconv.Itoa(s), "--cases", strconv.Itoa(cases))
+				cmd.Env = append(os.Environ(), "GOMAXPROCS="+gmp)
+				var out bytes.Buffer
+				cmd.Stdout = &out
+				if err := cmd.Run(); err != nil {
+					fmt.Println("HARNESS-ERROR selftest child failed:", err)
+					return 2
+				}
+				if out.String() != ref {
+					la, lb := strings.Split(ref, "\n"), strings.Split(out.String(), "\n")
+					for i := range la {
+						if i < len(lb) && la[i] != lb[i] {
+							cross++
+							if len(examples) < 5 {
+								examples = append(examples, fmt.Sprintf("fresh process (GOMAXPROCS=%s): %s != %s", gmp, la[i], lb[i]))
+							}
+						}
+					}
+				}
+			}
+		}
+		report[id] = map[string]interface{}{"cases_per_seed": total / seeds, "seeds": seeds, "same_process_mismatches": inproc, "fresh_process_mismatches": cross,
+			"fresh_processes_per_seed": procs, "gomaxprocs": []int{1, 4, 16}, "examples": examples}
+		fmt.Printf("%s: %d cases x %d seeds, same-process mismatches %d, fresh-process mismatches %d (over %d processes per seed)\n", id, total/seeds, seeds, inproc, cross, procs)
+		for _, e := range examples {
+			fmt.Println("   ", e)
+		}
+		bad += inproc + cross
+	}
+	report["wall_s"] = time.Since(t0).Seconds()
+	keys := []string{}
+	for k := range report {
+		keys = append(keys, k)
+	}
+	sort.Strings(keys)
+	os.MkdirAll(filepath.Join(outHome(), "evidence"), 0o755)
+	os.WriteFile(filepath.Join(outHome(), "evidence", "selftest-determinism.json"), []byte(mustJSON(report)), 0o644)
+	if bad > 0 {
+		fmt.Println("DETERMINISM: mismatches found")
+		return 1
+	}
+	fmt.Println("DETERMINISM: ok")
+	return 0
+}
+
+func selftestShrink() int {
+	// a failing predicate: the tape contains a value >= 7 at some position followed (anywhere later) by a 3
+	fails := func(vals []uint64) (bool, []uint64) {
+		seen := false
+		for _, v := range vals {
+			if v >= 7 {
+				seen = true
+			} else if seen && v == 3 {
+				return true, vals
+			}
+		}
+		return false, nil
+	}
+	start := []uint64{1, 9, 4, 4, 12, 0, 3, 5, 3, 2}
+	best, execs := Shrink(start, 2000, fails)
+	fmt.Println("shrunk", start, "to", best, "in", execs, "executions")
+	if len(best) != 2 || best[0] != 7 || best[1] != 3 {
+		fmt.Println("SHRINK: unexpected minimum")
+		return 1
+	}
+	fmt.Println("SHRINK: ok")
+	return 0
 }
